@@ -96,6 +96,12 @@ def sliced_unit(mutant=None):
     if n18 != 1:
         raise slicer.SliceError("L18 expected to fire once in DepsLog::Load, fired %d" % n18)
     counts["L18"] = n18
+    # L21: `char buf[kMaxRecordSize + 1];` -> `char buf[<literal>];`  CBMC's C++ front end mis-handles a local array whose bound is an
+    # expression over a `static const(expr)` variable: writes to it are lost (measured: `buf[0] = 3; assert(buf[0] == 3)` fails).
+    body, n21 = re.subn(r'char buf\[kMaxRecordSize \+ 1\];', 'char buf[%d];' % (SCALED_MAXREC + 1), body)
+    if n21 != 1:
+        raise slicer.SliceError("L21 expected to fire once in DepsLog::Load, fired %d" % n21)
+    counts["L21"] = n21
     return body, counts
 
 
@@ -199,7 +205,14 @@ H1 = r'''
 extern "C" void harness() {
   unsigned char orig[16 + TAIL + 1];
   vf_write_header();
+#ifdef PREFIX_PATH
+  /* one concrete, valid path record "a" (id 0) before the symbolic tail: 08 00 00 00 'a' 00 00 00 ff ff ff ff */
+  { static const unsigned char pre[12] = {8, 0, 0, 0, 'a', 0, 0, 0, 0xff, 0xff, 0xff, 0xff};
+    for (int i = 0; i < 12; i++) vf_file_data[16 + i] = pre[i]; }
+  for (int i = 12; i < TAIL; i++) vf_file_data[16 + i] = nondet_uchar();
+#else
   for (int i = 0; i < TAIL; i++) vf_file_data[16 + i] = nondet_uchar();
+#endif
   vf_file_len = 16 + TAIL;
   for (int i = 0; i < 16 + TAIL; i++) orig[i] = vf_file_data[i];
   vf_alloc_budget = 16 + TAIL;
@@ -224,6 +237,95 @@ extern "C" void harness() {
 '''
 
 
+
+H2 = r'''
+/* H2 writer side (encode): what RecordDeps/RecordId append is checked against the format reference: every byte written belongs to a
+   record a conforming reader MUST accept, and the reference reader decodes the most recently recorded data.  Together with H1
+   (the real Load equals the reference reader on every byte string within its bound) this is the encode/decode round trip.
+   N1/N2 (dependency counts) are concrete per run so that the file layout is concrete; which candidate each dependency is and the
+   mtimes are symbolic.  H3 (TORN = 1..3): session 2 loads a file with a torn record header, appends, and the result is checked. */
+/* spec of the encoder, from the format comment in deps_log.h */
+extern "C" void vf_expect_path(size_t off, const char* name, int len, int id) {
+  int pad = (4 - len %% 4) %% 4;
+  __CPROVER_assert(dl_u32(vf_file_data + off) == (unsigned)(len + pad + 4), "post C09 (enc): path record size word = name + padding + checksum, high bit clear");
+  for (int i = 0; i < 5; i++) if (i < len) __CPROVER_assert(vf_file_data[off + 4 + i] == (unsigned char)name[i], "post C09 (enc): path record holds the name");
+  for (int i = 0; i < 3; i++) if (i < pad) __CPROVER_assert(vf_file_data[off + 4 + len + i] == 0, "post C09 (enc): name padded with NUL to a 4-byte boundary");
+  __CPROVER_assert(dl_u32(vf_file_data + off + 4 + len + pad) == ~(unsigned)id, "post C09 (enc): checksum is the complement of the record's index");
+}
+extern "C" void vf_expect_deps(size_t off, int out_id, long mtime, int n, const int* ids) {
+  __CPROVER_assert(dl_u32(vf_file_data + off) == (0x80000000u | (unsigned)(4 * (3 + n))), "post C09 (enc): deps record size word with the high bit set");
+  __CPROVER_assert(dl_u32(vf_file_data + off + 4) == (unsigned)out_id, "post C09 (enc): output id");
+  __CPROVER_assert(dl_u32(vf_file_data + off + 8) == (unsigned)((unsigned long)mtime & 0xffffffffu), "post C09 (enc): mtime low word");
+  __CPROVER_assert(dl_u32(vf_file_data + off + 12) == (unsigned)(((unsigned long)mtime >> 32) & 0xffffffffu), "post C09 (enc): mtime high word");
+  for (int i = 0; i < 4; i++) if (i < n) __CPROVER_assert(dl_u32(vf_file_data + off + 16 + 4 * i) == (unsigned)ids[i], "post C09 (enc): input ids in order");
+}
+static Node* vf_pick(Node** cand, int ncand, int k) { __CPROVER_assume(k >= 0 && k < ncand); return cand[k]; }
+extern "C" void harness() {
+  std::string err;
+  vf_alloc_budget = VF_FILE_CAP;
+  static const char* names[4] = {"o", "bb", "ccc", "dddd"};   /* path lengths 1..4: every padding case */
+  long m0 = nondet_long(), m1 = nondet_long(), m2 = nondet_long();
+  State s1;
+  DepsLog w;
+#if TORN > 0
+  /* H3: the previous session left header + path record "a" + TORN stray bytes of the next record header */
+  vf_write_header();
+  { static const unsigned char pre[12] = {8, 0, 0, 0, 'a', 0, 0, 0, 0xff, 0xff, 0xff, 0xff};
+    for (int i = 0; i < 12; i++) vf_file_data[16 + i] = pre[i]; }
+  for (int i = 0; i < TORN; i++) vf_file_data[28 + i] = nondet_uchar();
+  vf_file_len = 28 + TORN;
+  LoadStatus st = w.Load("deps", &s1, &err);
+  __CPROVER_assert(st == LOAD_SUCCESS, "post C09: loading a log with a torn tail succeeds");
+  __CPROVER_assert(vf_file_len == 28, "post C09: the torn tail is cut off at the last complete record");
+#endif
+  Node* out = s1.GetNode(StringPiece("out.o"), 0);
+  Node* other = s1.GetNode(StringPiece("x"), 0);
+  Node* cand[4];
+  for (int i = 0; i < 4; i++) cand[i] = s1.GetNode(StringPiece(names[i]), 0);
+  int pick1[3], pick2[3];
+  Node* d1[3]; Node* d2[3];
+  for (int i = 0; i < 3; i++) {
+    pick1[i] = nondet_int(); pick2[i] = nondet_int();
+    d1[i] = vf_pick(cand, 4, pick1[i]); d2[i] = vf_pick(cand, 4, pick2[i]);
+  }
+  __CPROVER_assert(w.OpenForWrite("deps", &err), "post C09: OpenForWrite succeeds");
+  /* give every candidate an id first, so that the layout of what follows is concrete */
+  __CPROVER_assert(w.RecordDeps(other, m0, 4, cand), "post C09: RecordDeps reports success");
+  __CPROVER_assert(w.RecordDeps(out, m1, N1, d1), "post C09: RecordDeps reports success");
+  size_t len_after_first = vf_file_len;
+  __CPROVER_assert(w.RecordDeps(out, m2, N2, d2), "post C09: RecordDeps reports success");
+  size_t len_after_second = vf_file_len;
+  bool same = (m1 == m2) && (N1 == N2);
+  for (int i = 0; i < N1 && i < N2; i++) if (d1[i] != d2[i]) same = false;
+  __CPROVER_assert(!same || len_after_second == len_after_first, "post C09: recording unchanged data appends nothing");
+  __CPROVER_assert(same || len_after_second == len_after_first + 4 * (1 + 3 + N2), "post C09: changed data appends exactly one deps record");
+  w.Close();
+  /* encoder contract: the bytes appended are enc(record) at the (concrete) offsets the format prescribes */
+  size_t base = 16;
+#if TORN > 0
+  base = 28;                       /* header + the path record "a" (id 0) that was already there */
+  int id0 = 1;
+#else
+  int id0 = 0;
+#endif
+  vf_expect_path(base, "x", 1, id0);
+  for (int i = 0; i < 4; i++) vf_expect_path(base + 12 + 12 * i, names[i], i + 1, id0 + 1 + i);
+  { int ids[4] = {id0 + 1, id0 + 2, id0 + 3, id0 + 4}; vf_expect_deps(base + 60, id0, m0, 4, ids); }
+  vf_expect_path(base + 92, "out.o", 5, id0 + 5);
+  { int ids[3]; for (int i = 0; i < 3; i++) ids[i] = d1[i]->id(); vf_expect_deps(base + 108, id0 + 5, m1, N1, ids); }
+  if (!same) { int ids[3]; for (int i = 0; i < 3; i++) ids[i] = d2[i]->id(); vf_expect_deps(base + 108 + 16 + 4 * N1, id0 + 5, m2, N2, ids); }
+  __CPROVER_assert(vf_file_len == base + 108 + 16 + 4 * N1 + (same ? 0 : 16 + 4 * N2), "post C09: nothing else was written");
+  for (int i = 0; i < 4; i++) __CPROVER_assert(cand[i]->id() == id0 + 1 + i, "post C09: ids are dense indices in file order");
+  /* the writer's own table */
+  DepsLog::Deps* wd = w.GetDeps(out);
+  __CPROVER_assert(wd != 0 && wd->mtime == m2 && wd->node_count == N2, "post C09: GetDeps returns the most recently recorded mtime/count");
+  if (wd != 0 && wd->node_count == N2)
+    for (int i = 0; i < N2; i++) __CPROVER_assert(wd->nodes[i] == d2[i], "post C09: GetDeps returns exactly the most recently recorded dependencies");
+  __CPROVER_assert(0, "canary: end of harness reachable");
+}
+'''
+
+
 def unwind_rules(T, extra=()):
     R = max(T // 9 + 2, (T - 16) // 4 + 2, 2)
     rules = list(extra) + [
@@ -237,7 +339,7 @@ def unwind_rules(T, extra=()):
     return R, rules
 
 
-def _build_h1(T, mutant):
+def _build_h1(T, mutant, prefix=False):
     def build(d):
         check_shadow()
         hdr, c1 = mirrored_header()
@@ -249,7 +351,7 @@ def _build_h1(T, mutant):
         cap = 16 + T + 4
         src = os.path.join(slicer.REPO, "src")
         steps = [gotocc_cpp(["unit.cc"], defines=["TAIL=%d" % T, "VF_FILE_CAP=%d" % cap, "VF_STR_CAP=%d" % 34, "VF_VEC_CAP=%d" % 8,
-                                                 "VF_STATE_CAP=6", "DL_MAXP=6", "DL_MAXD=6"],
+                                                 "VF_STATE_CAP=6", "DL_MAXP=6", "DL_MAXD=6"] + (["PREFIX_PATH"] if prefix else []),
                             includes=[d, os.path.join(VERIF, "stubs", "cstdio"), os.path.join(VERIF, "stubs", "ninja_depslog"), STD,
                                       os.path.join(VERIF, "stubs"), os.path.join(VERIF, "specs"), src])]
         R, rules = unwind_rules(T)
@@ -263,6 +365,38 @@ def _build_h1(T, mutant):
     return build
 
 
+def _build_h2(n1, n2, cut, mutant):
+    def build(d):
+        check_shadow()
+        hdr, c1 = mirrored_header()
+        with open(os.path.join(d, "deps_log.h"), "w") as f:
+            f.write(hdr)
+        body, c2 = sliced_unit(mutant)
+        with open(os.path.join(d, "unit.cc"), "w") as f:
+            f.write(PRELUDE % {"slices": body} + H2 % {"maxrec": SCALED_MAXREC})
+        cap = 176
+        src = os.path.join(slicer.REPO, "src")
+        steps = [gotocc_cpp(["unit.cc"], defines=["N1=%d" % n1, "N2=%d" % n2, "TORN=%d" % max(cut, 0), "VF_FILE_CAP=%d" % cap, "VF_STR_CAP=34",
+                                                 "VF_VEC_CAP=10", "VF_STATE_CAP=9", "DL_MAXP=9", "DL_MAXD=5"],
+                            includes=[d, os.path.join(VERIF, "stubs", "cstdio"), os.path.join(VERIF, "stubs", "ninja_depslog"), STD,
+                                      os.path.join(VERIF, "stubs"), os.path.join(VERIF, "specs"), src])]
+        rules = [("fread.", SCALED_MAXREC + 2), ("fwrite.", SCALED_MAXREC + 2), ("vf_memcmp.", 14), ("vf_s_copy.", 36), ("vf_s_len.", 36),
+                 ("vf_s_eq.", 36), ("vf_s_fill.", 36), ("harness.", cap + 2), ("dl_scan.7", 14), ("dl_scan.", SCALED_MAXREC),
+                 ("vf_check_table.1", 36), ("vf_check_table.", 11), ("vf_vcopy", 12), ("vf_vfill", 12), ("vf_state_lookup", 11), ("vf_strlen", 8), ("vf_expect", 6), ("vf_write_header.", 18)]
+        argv = ["cbmc", "a.gb"] + CHECKS + ["--unwind", "12", "--unwinding-assertions", "--object-bits", "12",
+                                             "--max-field-sensitivity-array-size", "256"]
+
+        def post(dd, av):
+            us, unnamed = unwindset_from_loops(dd, "a.gb", rules)
+            return av + ["--unwindset", us]
+        return steps, argv, post
+    return build
+
+
+H2_SHAPES = {"quick": [(1, 1), (2, 2), (0, 1)], "thorough": [(a, b) for a in range(0, 4) for b in range(0, 4)]}
+H3_CUTS = {"quick": [], "thorough": [3]}
+H1P_BOUNDS = {"quick": [], "thorough": [24]}
+
 H1_BOUNDS = {"quick": [0, 1, 4, 8], "thorough": [0, 1, 2, 3, 4, 5, 8, 9, 12, 16, 20]}
 
 
@@ -274,6 +408,21 @@ def jobs(tier, mutant=None):
                 functions=["DepsLog::Load", "DepsLog::UpdateDeps", "DepsLog::GetDeps", "DepsLog::Deps::Deps"], weight=3.0 ** (T / 4.0))
         j.T = T
         js.append(j)
+    for T in H1P_BOUNDS[tier]:
+        j = Job("depslog.load.prefix_path.T%d" % T, _build_h1(T, mutant, prefix=True), "bounded", timeout=3400, mem_gb=16,
+                bound="valid header + one concrete path record + every tail of %d bytes" % (T - 12),
+                functions=["DepsLog::Load"], weight=3.0 ** ((T - 8) / 4.0))
+        j.T = T
+        js.append(j)
+    for n1, n2 in H2_SHAPES[tier]:
+        js.append(Job("depslog.roundtrip.n%d_n%d" % (n1, n2), _build_h2(n1, n2, -1, mutant), "bounded", timeout=3400, mem_gb=16,
+                      bound="writer: RecordDeps(x,4 deps) + RecordDeps(out,%d deps) + RecordDeps(out,%d deps), Close; file checked against the format reference; dependency choice and mtimes symbolic, 6 fixed path names (lengths 1-5)" % (n1, n2),
+                      functions=["DepsLog::RecordDeps", "DepsLog::RecordId", "DepsLog::OpenForWrite", "DepsLog::OpenForWriteIfNeeded", "DepsLog::Close", "DepsLog::GetDeps", "DepsLog::UpdateDeps"],
+                      weight=20 + n1 + n2))
+    for cut in H3_CUTS[tier]:
+        js.append(Job("depslog.sessions.cut%d" % cut, _build_h2(2, 1, cut, mutant), "bounded", timeout=3400, mem_gb=16,
+                      bound="session after a torn write: header + path record + %d arbitrary stray bytes; Load, then append 3 deps records, Close; file checked against the format reference" % cut,
+                      functions=["DepsLog::Load", "DepsLog::RecordDeps", "DepsLog::RecordId", "DepsLog::OpenForWrite", "DepsLog::Close"], weight=25))
     return js
 
 
@@ -329,6 +478,26 @@ int main(int argc, char** argv) {
   return bad ? 1 : 0;
 }
 '''
+
+
+def _m(target, old, new):
+    f = subst(old, new)
+    f.target = target
+    return f
+
+
+MUTANTS = [
+    ("load_alignment_check_dropped", _m("Load", "if ((size % 4) != 0 || size < 12) {", "if (size < 12) {")),
+    ("load_checksum_ignored", _m("Load", "if (id != expected_id || node->id() >= 0) {", "if (node->id() >= 0) {")),
+    ("load_offset_misses_header", _m("Load", "offset += size + sizeof(size);", "offset += size;")),
+    ("load_short_deps_record", _m("Load", "if ((size % 4) != 0 || size < 12) {", "if ((size % 4) != 0) {")),
+    ("load_partial_header_kept", _m("Load", "else if (ftell(f) != offset)", "else if (false)")),
+    ("writer_padding", _m("RecordId", "int padding = (4 - path_size % 4) % 4;", "int padding = (4 - path_size % 4);")),
+    ("writer_checksum", _m("RecordId", "unsigned checksum = ~(unsigned)id;", "unsigned checksum = ~(unsigned)id + 1;")),
+    ("writer_mtime_high_word", _m("RecordDeps4", "(mtime >> 32) & 0xffffffff", "(mtime >> 31) & 0xffffffff")),
+    ("writer_unchanged_test_first_dep_only", _m("RecordDeps4", "for (int i = 0; i < node_count; ++i) {\n        if (deps->nodes[i] != nodes[i]) {", "for (int i = 0; i < node_count && i < 1; ++i) {\n        if (deps->nodes[i] != nodes[i]) {")),
+    ("update_deps_keeps_old", _m("UpdateDeps", "deps_[out_id] = deps;", "if (!delete_old) deps_[out_id] = deps;")),
+]
 
 
 def replay(job, ob, vals, scratch):
